@@ -284,6 +284,13 @@ func (st *State) load(x *Exec, p SV) SV {
 		}
 		out = append(out, t)
 	}
+	for k, t := range out {
+		if li.leaves[li.lo+k].sort == RefS && pristineSelect(t) {
+			// a reference read from the heap as it was at entry denotes an object that existed at entry:
+			// it is distinct from everything allocated since (allocations are constants >= 0x80000000)
+			st.assume(BvCmp("bvult", t, mkBVu(0x80000000, 32)))
+		}
+	}
 	v := SV{ty: li.ty, l: out}
 	if _, isChan := li.ty.Underlying().(*types.Chan); isChan && li.hi-li.lo == 1 {
 		v.chanKey = li.rootKey + li.leaves[li.lo].path
@@ -444,4 +451,15 @@ func sortedKeys(m map[string]*Term) []string {
 	}
 	sort.Strings(ks)
 	return ks
+}
+
+// pristineSelect reports whether t is select(...select(H0_<region>, i)..., j): a read of the entry heap.
+func pristineSelect(t *Term) bool {
+	if t.op != "select" {
+		return false
+	}
+	for t.op == "select" {
+		t = t.args[0]
+	}
+	return t.op == "var" && strings.HasPrefix(t.name, "H0_")
 }
